@@ -26,7 +26,7 @@ manifest = {
         "guard": "verif",
         "enable": "go test -c -tags verif (harness module with replace github.com/resgateio/resgate => /repo)",
         "baseline_off_cmd": "cd /repo && go test -count=1 ./...",
-        "source_commits": ["1dcddfe", "a396677", "7168d08"],
+        "source_commits": ["1dcddfe", "a396677", "7168d08", "388d7f4"],
         "add_only": True,
     },
     "engines": [
